@@ -845,6 +845,25 @@ theorem C05_skipInstance_ends_behind_semicolon (cm : Bool) (iters fuel : Nat) (s
   rw [← skipInstance_keeps cm iters fuel s r h]
   simp [IS.whole, hp]
 
+/-- "Stays in the record" for the scan, as an instance of hypothesis (2) of `C05_readData2_skeleton_partial`: from the same good
+position — whose first `;` comes after the bytes `a` — the repaired scan (any give-up character `c`) ends with that first `;`
+next on the stream, and `SkipInstance`, when it finds an end of the record at all, has left no more than what follows that
+`;`: the scan never ends behind the place where `SkipInstance` ends the record (`rs.s.m ≤` the scan's measure). -/
+theorem C05_recoveryScan_not_behind_skipInstance (pre a b : List Byte) (sk : Bool) (c : Byte) (rs : LoopRes)
+    (ha : ∀ x ∈ a, x ≠ chSemi)
+    (h : skipInstance C05.skipInstanceSkipsComments C05.readCommentIters ((a ++ chSemi :: b).length + 2)
+          ⟨pre, a ++ chSemi :: b, false, false, sk⟩ = .ok rs) (hsev : rs.sev = sevNull) :
+    ∃ r, recoveryScan true false true (a.length + 2) ⟨pre, a ++ chSemi :: b, false, false, sk⟩ c = .ok r ∧
+      r.s.rest = chSemi :: b ∧ r.s.good = true ∧ rs.s.m ≤ r.s.m := by
+  obtain ⟨p', l', st', hr⟩ := C05_recoveryScan_never_passes_semicolon pre a b false false sk c ha
+  have hlen := skipInstance_not_before_first_semi pre a b sk _ _ rs ha h hsev
+  refine ⟨_, hr, rfl, by simp [IS.good], ?_⟩
+  have : rs.s.m ≤ rs.s.rest.length + 1 := IS.m_le rs.s
+  have hm2 : (⟨p', chSemi :: b, false, false, sk⟩ : IS).m = b.length + 2 := by simp [IS.m]
+  show rs.s.m ≤ (⟨p', chSemi :: b, false, false, sk⟩ : IS).m
+  rw [hm2]
+  omega
+
 /-- the same for `ReadTokenSeparator` (white space, comments, print control directives) -/
 theorem C05_readTokenSeparator_suffix (s : IS) (r : LoopRes)
     (h : readTokenSeparator C05.skipInstanceSkipsComments C05.readCommentIters (s.rest.length + 2) s = .ok r) (hf : r.s.fail = false) :
